@@ -173,6 +173,13 @@ def eval_case(job):
         basen = name.split(".")[0]
         k = kind.get(basen)
         a, b = p0.get(name), p1.get(name)
+        if basen == "get_face_area()":
+            k = "area"
+        if name.endswith("(q)") or name.endswith("(angles)"):
+            continue        # queries at fixed arguments (machine projection): their covariance is checked with mapped arguments below
+        if isinstance(a, tuple) != isinstance(b, tuple):
+            bad(name, f"{a!r} on the original, {b!r} on the transformed shape"[:300], ["exception_changed"])
+            continue
         if isinstance(a, tuple) or isinstance(b, tuple):
             if a != b and not (isinstance(a, tuple) and isinstance(b, tuple) and a[0] == b[0] == "opaque"):
                 bad(name, f"{a!r} on the original, {b!r} on the transformed shape", ["exception_changed"])
